@@ -79,9 +79,9 @@ def rule_titles(rep: Report, rid="C19.escape", rid_col="C19.col", rid_roles="C19
                     if seq[0] == "call" and seq[1] == "map":
                         kws = seq[2][1]
                     else:
-                        o = I.obj(seq)
-                        if isinstance(o, HList) and len(o.segs) == 1 and o.segs[0][0] == "loop":
-                            kws = I.loops[o.segs[0][1]].get("iter")
+                        sg_ = nf.flatten_segs(I, nf.value_segs(I, seq, m.tree), m.tree) if seq[0] in ("ref", "cond") else []
+                        if len(sg_) == 1 and sg_[0][0] == "loop":
+                            kws = I.loops[sg_[0][1]].get("iter")
             def parts(t):
                 if t is None:
                     return [None]
